@@ -90,9 +90,10 @@ func Run(c *core.Ctx) {
 		c.Undecidedf("R1.convention", "getMatchKeys/skeleton", gmk.Decl.Pos(), "getMatchKeys no longer has the recognisable interpreter form: %s", why)
 		return
 	}
+	lay0, _ := it.runCopyOut(it.newEval(nil, nil, nil)).classify()
 	c.Okf("R1.convention", "getMatchKeys/skeleton", gmk.Decl.Pos(),
-		"recovered: first index %s, loop while index %s %s, stride %s, group size %s, tail from %s, length %s, prefix %s",
-		c.Src(it.eF), it.cmpOp, c.Src(it.eL), srcOr(c, it.eS, "1"), c.Src(it.eC), c.Src(it.eT), c.Src(it.eLen), srcOr(c, it.eP, "none"))
+		"recovered: first index %s, loop while index %s %s, stride %s; copy-out interpreted: prefix %v, group size %v, tail from %v, length %v",
+		c.Src(it.eF), it.cmpOp, c.Src(it.eL), srcOr(c, it.eS, "1"), lay0.P, lay0.C, lay0.T, lay0.LEN)
 
 	// ---- table
 	entries, tpos := table(c, it, wrap, gmk)
@@ -108,14 +109,21 @@ func Run(c *core.Ctx) {
 	}
 	suggest := map[spec]*[3]int64{}
 	var inexpressible []string
+	evaluable := false
 	for sp, names := range classes {
-		suggest[sp] = it.search(sp)
-		if suggest[sp] == nil {
+		var any bool
+		suggest[sp], any = it.search(sp)
+		evaluable = evaluable || any
+		if suggest[sp] == nil && any {
 			sort.Strings(names)
 			inexpressible = append(inexpressible, fmt.Sprintf("%s %v", sp, names))
 		}
 	}
 	sort.Strings(inexpressible)
+	if !evaluable {
+		c.Undecidedf("R1.convention", "getMatchKeys/expressible", gmk.Decl.Pos(), "the interpreter's first/last/stride/tail expressions cannot be evaluated for concrete table entries")
+		return
+	}
 	c.Check("R1.convention", "getMatchKeys/expressible", gmk.Decl.Pos(), len(inexpressible) == 0,
 		"under the interpreter's reading no (firstkey,lastkey,keystep) triple in 1..3 x -3..3 x 1..3 reproduces these Redis key specs, so the interpreter itself (not the table) mis-handles the commands: "+strings.Join(inexpressible, "; "))
 
@@ -398,7 +406,7 @@ func compare(cv convention, sp spec, cmd string) (bool, string) {
 }
 
 // search looks for a table triple that makes the interpreter handle sp.
-func (it *interp) search(sp spec) *[3]int64 {
+func (it *interp) search(sp spec) (found *[3]int64, evaluable bool) {
 	order := func(pref int64, lo, hi int64) []int64 {
 		out := []int64{pref}
 		for v := lo; v <= hi; v++ {
@@ -415,11 +423,12 @@ func (it *interp) search(sp spec) *[3]int64 {
 				if why != "" {
 					continue
 				}
+				evaluable = true
 				if ok, _ := compare(cv, sp, ""); ok {
-					return &[3]int64{f, l, s}
+					return &[3]int64{f, l, s}, true
 				}
 			}
 		}
 	}
-	return nil
+	return nil, evaluable
 }
